@@ -15,6 +15,9 @@
 //!   ["x", msg]                 poll_next panicked (debug_assert / unknown group)
 //! ops "binid_cmp", "prio_cmp", "threads_required", "prio_sort": nextest's own wiring through its
 //! public API (RustBinaryId's Ord, TestPriority's Ord, ThreadsRequired::compute).
+#[path = "fq_runner.rs"]
+mod fq_runner;
+
 use future_queue::{FutureQueueContext, StreamExt as _};
 use futures::{channel::oneshot, stream, Stream, StreamExt as _};
 use serde_json::{json, Value};
@@ -315,6 +318,7 @@ pub fn run(case: &Value) -> Value {
             v.sort_by_key(|x| x.0);
             json!(v.iter().map(|x| x.1).collect::<Vec<_>>())
         }
+        "runner" => fq_runner::run_runner(case),
         other => json!({ "error": format!("unknown op {other}") }),
     }
 }
